@@ -104,7 +104,15 @@ def run(ctx: Ctx):
     pos_read = [i for i, s_ in enumerate(stmts) if any(isinstance(n, ast.Attribute) and isinstance(n.value, ast.Name) and n.value.id == "self" and n.attr in ("M2", "count", "mean") for n in ast.walk(s_))]
     oku = n_upd == 1 and len(pos_upd) == 1 and all(i > pos_upd[0] for i in pos_read)
     ctx.ob("C20.b", "RewardScaler.__call__:update-once-before-read", oku, fc.loc, f"self.update(scores) called {n_upd}x at statement {pos_upd}, statistics read at {pos_read}", construct="RewardScaler.__call__:update-order")
-    L = fr2.locals
+    # the scaling factor is the common divisor of the returned alternatives; std is the sqrt inside it (no reliance on local names)
+    def _alts_raw(v):
+        if isinstance(v, vg.S) and v.op in ("phi", "ifexp"):
+            return _alts_raw(v.args[1]) + _alts_raw(v.args[2])
+        return [v]
+    divs = [a.args[1] for c_, v_ in fr2.returns for a in _alts_raw(v_) if isinstance(a, vg.S) and a.op == "/" and any(n.op == "meth" and n.args[1] == "sqrt" for n in vg.walk(a.args[1]))]
+    fac0 = divs[0] if divs and all(d is divs[0] for d in divs) else None
+    sq = [n for n in (vg.walk(fac0) if fac0 is not None else []) if n.op == "meth" and n.args[1] == "sqrt"]
+    L = {"std": sq[0] if len(sq) == 1 else None, "score_scaling_factor": fac0}
     std = L.get("std")
     oks, whys = False, "std not found"
     if isinstance(std, vg.S):
